@@ -10,15 +10,18 @@ CLAIMED = {
     "C01": ("property-based testing (rapid) + deterministic structured grid; oracle = independent CashAddr/Base58Check "
             "reference encoder pinned to spec vectors + decode round-trip of every rendering",
             "Generated-input search over (address kind x network x payload) with a structured-hash grid for every kind x net "
-            "cell; each case is compared with a reference encoder written from the specification and round-tripped through "
-            "DecodeAddress in four renderings.",
+            "cell and a directed search for public keys whose hex lies inside the CashAddr alphabet; each case is compared with a "
+            "reference encoder written from the specification, round-tripped through DecodeAddress in four renderings, re-checked "
+            "after SetFormat, and batches of cases are evaluated concurrently (state shared between calls).",
             "Trusts crypto/sha256, x/crypto/ripemd160 and bchec point multiplication (used to make valid public keys). "
             "Sampling: 2^160 / 2^256 hashes are not enumerated."),
     "C02": ("property-based testing (rapid) with constructive generators (valid checksum over arbitrary 5-bit payloads, "
             "Base58Check over all version bytes, hostile public-key hex); oracle = strict reference acceptor + canonical "
             "re-encoding + network membership table",
-            "Generated-input search: every string is decoded on all six networks; acceptance must imply canonical re-encoding, "
-            "agreement with a strict reference acceptor written from the CashAddr/Base58Check/SEC1 rules, and correct IsForNet.",
+            "Generated-input search: every string is decoded on all six networks plus two custom networks with colliding legacy "
+            "ids; acceptance must imply canonical re-encoding, agreement with a strict reference acceptor written from the "
+            "CashAddr/Base58Check/SEC1 rules, and correct IsForNet; a version-byte x length grid; byte/rune alias renderings; "
+            "valid and corrupted strings decoded concurrently.",
             "Only accept => conditions are asserted (completeness is C01). Trusts math/big and crypto/sha256."),
     "C03": ("exhaustive small-scope enumeration in syndrome space (meet-in-the-middle over the implementation's own remainder "
             "function, exported by a build-tag hook) justified by a rapid-sampled metamorphic law (affine linearity), plus "
@@ -26,7 +29,10 @@ CLAIMED = {
             "All error patterns of weight <=4 on the 112-symbol CashAddr window and the 88-symbol bech32 window, and all weight-5 "
             "patterns on the 61-symbol (quick) / 112-symbol (thorough) CashAddr window, are enumerated completely in syndrome "
             "space; concrete corrupted strings (every single substitution by every byte value, random 2..5 substitutions) are "
-            "checked against the decoders and the reference.",
+            "checked against the decoders (DecodeCashAddress, DecodeAddress with explicit prefix, bech32.Decode) and the reference. "
+            "The decoders' acceptance sets are probed directly (remainder differences of low bit weight, cross-prefix constants, "
+            "the bech32m constant; all 2^30 bech32 remainders in the thorough tier) and every extra accepted remainder becomes a "
+            "target of the syndrome search.",
             "Completeness of the enumeration rests on the affine-linearity law, which is sampled (and checked completely for "
             "single-symbol errors on the zero codeword). Without the hook files the enumeration runs on reference arithmetic."),
     "C04": ("property-based testing (rapid) with reference-directed search for rare cases (children with leading-zero scalars); "
@@ -46,7 +52,9 @@ CLAIMED = {
     "C08": ("property-based testing (rapid) with structured-then-mutated generators per entry point (valid outer layer, degenerate inner "
             "content) and a resource oracle: no panic, no repeated >10 s call, bytes allocated <= 2 MiB + 8 KiB per input byte",
             "Generated hostile inputs for every parsing entry point named in the statement, incl. constructed CashAddr strings with a "
-            "valid checksum over <8 symbols, empty filter-loads, declared-count GCS/wire inputs and heterogeneous JSON.",
+            "valid checksum over <8 symbols, empty filter-loads, declared-count GCS/wire inputs, heterogeneous and deeply nested JSON, "
+            "layered spend-graph blocks (scan time), merkle builders on parsed blocks; hangs (90 s watchdog) and out-of-memory "
+            "process deaths are attributed to the saved current case. Thorough tier adds native go fuzzing of six targets.",
             "Termination 'at most quadratic' is only checked as 'no hang'; allocation inside bchd's wire decoder is a listed known "
             "finding (wire-prealloc) with a bounded allowance."),
     "C09": ("property-based testing (rapid), stateful: generated op sequences run in lock-step with an independent BIP37 model "
@@ -105,7 +113,8 @@ CLAIMED = {
     "C20": ("generated concurrent programs executed repeatedly under the Go race detector, with porcupine linearizability checking "
             "against the sequential BIP37 model and post-join invariants",
             "Exploration of the interleavings that occur in repeated executions of generated programs (2..32 goroutines); race "
-            "detector + linearizability + no-lost-update + read-your-write checks.",
+            "detector + linearizability + no-lost-update + read-your-write + cold-message + load-state-agreement invariants; "
+            "GCS filters (built, re-parsed, never-queried, inflated N) queried concurrently.",
             "The harness does not own the scheduler; the static 'all paths' part of the statement is not decided."),
     "C07": ("property-based testing (rapid) + exhaustive small-scope enumeration against independent "
             "reference codecs (long-division Base58, BIP173 reference, bit-stream model) and an argument-purity canary",
